@@ -135,7 +135,11 @@ struct Driver {
 
 	std::vector<Inst*> insts;
 
+	uint64_t toggle = 4242;		// useLogger=2: attach / detach the logger between operations (own stream: the workload itself must not change)
 	void opBegin(Inst& in, int op, long a = 0, long b = 0) {
+#ifdef HFSM2_ENABLE_LOG_INTERFACE
+		if (useLogger == 2 && in.m && op != OP_CONSTRUCT && op != OP_COPY && op != OP_DESTROY) { toggle = mix(toggle); in.m->attachLogger((toggle & 1) ? &in.logger : nullptr); }
+#endif
 		in.probe.draws = 0; in.probe.guardCalls = 0; in.probe.lastPendSig = -2;
 		if (in.ctx) { in.ctx->draws = 0; in.ctx->guardCalls = 0; in.ctx->lastPendSig = -2; }
 		log.tag('O'); log.i(in.idx); log.i((long)in.probe.step); log.i(op); log.i(a); log.i(b); log.nl();
